@@ -6,7 +6,7 @@
 //! exportable types its declaration names (what must be imported) and which types an export of
 //! it must reach. It is *not* derived from the macro output.
 
-#![allow(dead_code)]
+#![allow(dead_code, non_camel_case_types)]
 
 use std::collections::HashMap;
 
@@ -956,6 +956,191 @@ pub struct ZN2 {
     pub d: ZN1,
 }
 
+// ---- family ZY: shapes found missing by seeded-change round 4, manifest-free ----------------------
+
+#[derive(TS)]
+#[ts(export_to = p(116), rename = n(116))]
+pub struct ZY0 {
+    pub v: i32,
+}
+
+#[derive(TS)]
+#[ts(export_to = p(117), rename = n(117))]
+pub struct ZY1 {
+    pub v: i32,
+}
+
+#[derive(TS)]
+#[ts(export_to = p(118), rename = n(118))]
+pub struct ZY2 {
+    pub v: i32,
+}
+
+#[derive(TS)]
+#[ts(export_to = p(119), rename = n(119))]
+pub struct ZY3 {
+    pub v: i32,
+}
+
+#[derive(TS)]
+#[ts(export_to = p(120), rename = n(120))]
+pub struct ZY4 {
+    pub v: i32,
+}
+
+#[derive(TS)]
+#[ts(export_to = p(121), rename = n(121))]
+pub struct ZY5 {
+    pub v: i32,
+}
+
+#[derive(TS)]
+#[ts(export_to = p(122), rename = n(122))]
+pub struct ZY6 {
+    pub v: i32,
+}
+
+#[derive(TS)]
+#[ts(export_to = p(123), rename = n(123))]
+pub struct ZY7 {
+    pub v: i32,
+}
+
+#[derive(TS)]
+#[ts(export_to = p(124), rename = n(124))]
+pub struct ZY8 {
+    pub v: i32,
+}
+
+#[derive(TS)]
+#[ts(export_to = p(125), rename = n(125))]
+pub struct ZY9 {
+    pub v: i32,
+}
+
+#[derive(TS)]
+#[ts(export_to = p(126), rename = n(126))]
+pub struct ZY10 {
+    pub v: i32,
+}
+
+#[derive(TS)]
+#[ts(export_to = p(127), rename = n(127))]
+pub struct ZY11 {
+    pub v: i32,
+}
+
+#[derive(TS)]
+#[ts(export_to = p(128), rename = n(128))]
+pub struct ZY12 {
+    pub v: i32,
+}
+
+#[derive(TS)]
+#[ts(export_to = p(129), rename = n(129))]
+pub struct ZY13 {
+    pub v: i32,
+}
+
+#[derive(TS)]
+#[ts(export_to = p(130), rename = n(130))]
+pub struct ZY14 {
+    pub v: i32,
+}
+
+#[derive(TS)]
+#[ts(export_to = p(131), rename = n(131))]
+pub struct ZY15 {
+    pub v: i32,
+}
+
+#[derive(TS)]
+#[ts(export_to = p(132), rename = n(132))]
+pub struct ZYW0 {
+    pub inner: ZY0,
+}
+
+#[derive(TS)]
+#[ts(export_to = p(133), rename = n(133))]
+pub struct ZYW1 {
+    pub inner: ZY1,
+}
+
+#[derive(TS)]
+#[ts(export_to = p(134), rename = n(134))]
+pub struct ZYW2 {
+    pub inner: ZY2,
+}
+
+#[derive(TS)]
+#[ts(export_to = p(135), rename = n(135))]
+pub struct ZYW3 {
+    pub inner: ZY3,
+}
+
+#[derive(TS)]
+#[ts(export_to = p(136), rename = n(136))]
+pub struct ZYW4 {
+    pub inner: ZY4,
+}
+
+#[derive(TS)]
+#[ts(export_to = p(137), rename = n(137))]
+pub struct ZYW5 {
+    pub inner: ZY5,
+}
+
+#[derive(TS)]
+#[ts(export_to = p(138), rename = n(138))]
+pub struct ZY_S0(#[ts(inline)] pub Vec<ZYW0>);
+
+#[derive(TS)]
+#[ts(export_to = p(139), rename = n(139))]
+pub struct ZY_S1(#[ts(inline)] pub Option<Box<ZYW1>>);
+
+#[derive(TS)]
+#[ts(export_to = p(140), rename = n(140))]
+pub enum ZY_E0 {
+    A(#[ts(inline)] Vec<ZYW2>),
+    B(#[ts(inline)] HashMap<String, ZYW3>),
+    C,
+}
+
+#[derive(TS)]
+#[ts(export_to = p(141), rename = n(141), concrete(U = ZY6))]
+pub struct ZY_G0<U = ZY7> {
+    pub u: U,
+    pub k: ZY8,
+}
+
+#[derive(TS)]
+#[ts(export_to = p(142), rename = n(142))]
+pub struct ZY_G1<T, C = ZG0<T>> {
+    pub t: T,
+    pub c: C,
+}
+
+#[derive(TS)]
+#[ts(export_to = p(143), rename = n(143), concrete(C = ZY13))]
+pub struct ZY_G2<A, B, C> {
+    pub a: A,
+    pub b: Vec<B>,
+    pub c: C,
+}
+
+#[derive(TS)]
+#[ts(export_to = p(144), rename = n(144))]
+pub struct ZY_N0 {
+    #[ts(flatten)]
+    pub left: Box<ZYW4>,
+    #[ts(flatten)]
+    pub right: Box<ZYW5>,
+    #[ts(inline)]
+    pub outcome: Result<ZW3, ZW4>,
+    pub wrapped_key: HashMap<std::sync::Arc<ZY14>, ZY15>,
+    pub boxed_key: std::collections::BTreeMap<Box<ZV0>, u32>,
+}
+
 // ---- family L: literal attributes, as in ordinary user code -------------------------------
 
 #[derive(TS)]
@@ -988,7 +1173,7 @@ pub struct L3 {
 pub struct L4(pub String);
 
 /// Number of definitions that read the table (`p(i)` / `n(i)`).
-pub const DER_DEFS: usize = 116;
+pub const DER_DEFS: usize = 145;
 
 #[derive(Clone, Copy, Debug)]
 pub enum Place {
@@ -1157,7 +1342,38 @@ pub const ZK0_: usize = 133;
 pub const ZN0_: usize = 134;
 pub const ZN1_: usize = 135;
 pub const ZN2_: usize = 136;
-pub const DER_HANDLES: usize = 137;
+pub const H_ZY0: usize = 137;
+pub const H_ZY1: usize = 138;
+pub const H_ZY2: usize = 139;
+pub const H_ZY3: usize = 140;
+pub const H_ZY4: usize = 141;
+pub const H_ZY5: usize = 142;
+pub const H_ZY6: usize = 143;
+pub const H_ZY7: usize = 144;
+pub const H_ZY8: usize = 145;
+pub const H_ZY9: usize = 146;
+pub const H_ZY10: usize = 147;
+pub const H_ZY11: usize = 148;
+pub const H_ZY12: usize = 149;
+pub const H_ZY13: usize = 150;
+pub const H_ZY14: usize = 151;
+pub const H_ZY15: usize = 152;
+pub const H_ZYW0: usize = 153;
+pub const H_ZYW1: usize = 154;
+pub const H_ZYW2: usize = 155;
+pub const H_ZYW3: usize = 156;
+pub const H_ZYW4: usize = 157;
+pub const H_ZYW5: usize = 158;
+pub const H_ZY_S0: usize = 159;
+pub const H_ZY_S1: usize = 160;
+pub const H_ZY_E0: usize = 161;
+pub const H_ZY_G0: usize = 162;
+pub const H_ZY_G1_ERASED: usize = 163;
+pub const H_ZY_G1: usize = 164;
+pub const H_ZY_G2_ERASED: usize = 165;
+pub const H_ZY_G2: usize = 166;
+pub const H_ZY_N0: usize = 167;
+pub const DER_HANDLES: usize = 168;
 
 use Place::{Lit, RenameOnly, Table as Tb};
 
@@ -1341,6 +1557,38 @@ pub const MANIFEST: [DerInfo; DER_HANDLES] = [
     DerInfo { label: "ZN0", place: Tb(113), import_refs: &[], reach_refs: &[] },
     DerInfo { label: "ZN1", place: Tb(114), import_refs: &[], reach_refs: &[] },
     DerInfo { label: "ZN2", place: Tb(115), import_refs: &[], reach_refs: &[] },
+    // family ZY (manifest-free)
+    DerInfo { label: "ZY0", place: Tb(116), import_refs: &[], reach_refs: &[] },
+    DerInfo { label: "ZY1", place: Tb(117), import_refs: &[], reach_refs: &[] },
+    DerInfo { label: "ZY2", place: Tb(118), import_refs: &[], reach_refs: &[] },
+    DerInfo { label: "ZY3", place: Tb(119), import_refs: &[], reach_refs: &[] },
+    DerInfo { label: "ZY4", place: Tb(120), import_refs: &[], reach_refs: &[] },
+    DerInfo { label: "ZY5", place: Tb(121), import_refs: &[], reach_refs: &[] },
+    DerInfo { label: "ZY6", place: Tb(122), import_refs: &[], reach_refs: &[] },
+    DerInfo { label: "ZY7", place: Tb(123), import_refs: &[], reach_refs: &[] },
+    DerInfo { label: "ZY8", place: Tb(124), import_refs: &[], reach_refs: &[] },
+    DerInfo { label: "ZY9", place: Tb(125), import_refs: &[], reach_refs: &[] },
+    DerInfo { label: "ZY10", place: Tb(126), import_refs: &[], reach_refs: &[] },
+    DerInfo { label: "ZY11", place: Tb(127), import_refs: &[], reach_refs: &[] },
+    DerInfo { label: "ZY12", place: Tb(128), import_refs: &[], reach_refs: &[] },
+    DerInfo { label: "ZY13", place: Tb(129), import_refs: &[], reach_refs: &[] },
+    DerInfo { label: "ZY14", place: Tb(130), import_refs: &[], reach_refs: &[] },
+    DerInfo { label: "ZY15", place: Tb(131), import_refs: &[], reach_refs: &[] },
+    DerInfo { label: "ZYW0", place: Tb(132), import_refs: &[], reach_refs: &[] },
+    DerInfo { label: "ZYW1", place: Tb(133), import_refs: &[], reach_refs: &[] },
+    DerInfo { label: "ZYW2", place: Tb(134), import_refs: &[], reach_refs: &[] },
+    DerInfo { label: "ZYW3", place: Tb(135), import_refs: &[], reach_refs: &[] },
+    DerInfo { label: "ZYW4", place: Tb(136), import_refs: &[], reach_refs: &[] },
+    DerInfo { label: "ZYW5", place: Tb(137), import_refs: &[], reach_refs: &[] },
+    DerInfo { label: "ZY_S0", place: Tb(138), import_refs: &[], reach_refs: &[] },
+    DerInfo { label: "ZY_S1", place: Tb(139), import_refs: &[], reach_refs: &[] },
+    DerInfo { label: "ZY_E0", place: Tb(140), import_refs: &[], reach_refs: &[] },
+    DerInfo { label: "ZY_G0", place: Tb(141), import_refs: &[], reach_refs: &[] },
+    DerInfo { label: "ZY_G1<Dummy,Dummy>", place: Tb(142), import_refs: &[], reach_refs: &[] },
+    DerInfo { label: "ZY_G1", place: Tb(142), import_refs: &[], reach_refs: &[] },
+    DerInfo { label: "ZY_G2<Dummy,Dummy>", place: Tb(143), import_refs: &[], reach_refs: &[] },
+    DerInfo { label: "ZY_G2", place: Tb(143), import_refs: &[], reach_refs: &[] },
+    DerInfo { label: "ZY_N0", place: Tb(144), import_refs: &[], reach_refs: &[] },
 ];
 
 pub fn der_handle(h: usize) -> Handle {
@@ -1483,6 +1731,37 @@ pub fn der_handle(h: usize) -> Handle {
         ZN0_ => handle::<ZN0>(l),
         ZN1_ => handle::<ZN1>(l),
         ZN2_ => handle::<ZN2>(l),
+        H_ZY0 => handle::<ZY0>(l),
+        H_ZY1 => handle::<ZY1>(l),
+        H_ZY2 => handle::<ZY2>(l),
+        H_ZY3 => handle::<ZY3>(l),
+        H_ZY4 => handle::<ZY4>(l),
+        H_ZY5 => handle::<ZY5>(l),
+        H_ZY6 => handle::<ZY6>(l),
+        H_ZY7 => handle::<ZY7>(l),
+        H_ZY8 => handle::<ZY8>(l),
+        H_ZY9 => handle::<ZY9>(l),
+        H_ZY10 => handle::<ZY10>(l),
+        H_ZY11 => handle::<ZY11>(l),
+        H_ZY12 => handle::<ZY12>(l),
+        H_ZY13 => handle::<ZY13>(l),
+        H_ZY14 => handle::<ZY14>(l),
+        H_ZY15 => handle::<ZY15>(l),
+        H_ZYW0 => handle::<ZYW0>(l),
+        H_ZYW1 => handle::<ZYW1>(l),
+        H_ZYW2 => handle::<ZYW2>(l),
+        H_ZYW3 => handle::<ZYW3>(l),
+        H_ZYW4 => handle::<ZYW4>(l),
+        H_ZYW5 => handle::<ZYW5>(l),
+        H_ZY_S0 => handle::<ZY_S0>(l),
+        H_ZY_S1 => handle::<ZY_S1>(l),
+        H_ZY_E0 => handle::<ZY_E0>(l),
+        H_ZY_G0 => handle::<ZY_G0<ZY6>>(l),
+        H_ZY_G1_ERASED => handle::<ZY_G1<ts_rs::Dummy, ts_rs::Dummy>>(l),
+        H_ZY_G1 => handle::<ZY_G1<ZY9, ZY10>>(l),
+        H_ZY_G2_ERASED => handle::<ZY_G2<ts_rs::Dummy, ts_rs::Dummy, ZY13>>(l),
+        H_ZY_G2 => handle::<ZY_G2<ZY11, ZY12, ZY13>>(l),
+        H_ZY_N0 => handle::<ZY_N0>(l),
         _ => panic!("no such derived handle {h}"),
     }
 }
